@@ -17,9 +17,9 @@ import (
 // the explored schedule ran them.
 //
 // Accesses made by frames of harness code (files zz_verif_*, package zzverifrt) are not tracked: the
-// harness's own test doubles rely on the engine's baton. Nor are accesses made by frames of the library MODELS
-// (arrow/array, arrow/ipc, cbor ...): they stand for libraries whose internal synchronisation is part of their
-// contract, and they keep global bookkeeping (token table, live-object counters) of their own. Accesses during lazily executed package
+// harness's own test doubles rely on the engine's baton. Frames of the library MODELS (arrow/array, arrow/ipc,
+// cbor ...) are tracked like the libraries they stand for, except the models' own bookkeeping (functions named
+// verif*/Verif*: token table, live-object counters). Accesses during lazily executed package
 // initialisers are not tracked either (Go runs them before main).
 
 type vclock []uint32
@@ -197,8 +197,10 @@ func hbHarnessFrame(fr *frame) bool {
 	if fn.Prog != nil && fn.Pos().IsValid() {
 		name := fn.Prog.Fset.Position(fn.Pos()).Filename
 		if ModelFiles[name] {
-			fr.harness = true
-			return true
+			// library models: tracked like the libraries they stand for, except their own bookkeeping
+			// (functions named verif*/Verif*: token table, live-object counters, detached master copies)
+			fr.harness = strings.HasPrefix(fn.Name(), "verif") || strings.HasPrefix(fn.Name(), "Verif")
+			return fr.harness
 		}
 		if k := strings.LastIndexByte(name, '/'); k >= 0 {
 			name = name[k+1:]
